@@ -99,6 +99,9 @@ def _scan_one(args):
     return src, r.returncode, (r.stderr or '')[-1500:]
 
 
+_SCRATCH_REGISTERED = []
+
+
 def prepare(repo='/repo', verbose=True, base=None, changed=None):
     """returns (cache_dir, info).  cache_dir holds one facts json per unit.
     base/changed (scratch copies only): facts of an already extracted tree `base` = (cache_dir, repo_path) are reused for
@@ -110,6 +113,12 @@ def prepare(repo='/repo', verbose=True, base=None, changed=None):
     scratch = repo != '/repo'
     cache = os.path.join(BUILD, ('cache_scratch_%d' % os.getpid()) if scratch else 'cache', th)
     done = os.path.join(cache, 'DONE.json')
+    if scratch and not _SCRATCH_REGISTERED:
+        # facts of a scratch copy are private to this process: gone when it ends
+        import atexit
+        import shutil
+        _SCRATCH_REGISTERED.append(1)
+        atexit.register(shutil.rmtree, os.path.dirname(cache), True)
     if os.path.exists(done):
         info = json.load(open(done))
         info['cached'] = True
